@@ -33,6 +33,11 @@ type IncOpts struct {
 	TZOffset int   // local time zone of this incarnation (seconds east of UTC)
 	GapNS    int64 // wall-clock time between the end of this incarnation and the next (default 1h)
 	OnStep   func(inc *Inc)
+	// InjectAt > 0: at that simulator step somebody outside the workflow (the
+	// user, another program) puts InjectData at InjectPath
+	InjectAt   int
+	InjectPath string
+	InjectData []byte
 }
 
 type FaultSpec struct {
@@ -155,6 +160,22 @@ func RunInc(w *WF, t *simrt.Tape, root *simrt.Inode, nextIno int, o IncOpts) *In
 	}
 	if o.OnStep != nil {
 		s.OnStep = func() { o.OnStep(inc) }
+	}
+	if o.InjectAt > 0 {
+		prev := s.OnStep
+		injected := false
+		s.OnStep = func() {
+			if !injected && s.Steps >= o.InjectAt {
+				injected = true
+				if simrt.Find(s.FS.Root, o.InjectPath) == nil {
+					s.FS.PutFile(o.InjectPath, o.InjectData)
+					s.Fault("file-appears-from-outside")
+				}
+			}
+			if prev != nil {
+				prev()
+			}
+		}
 	}
 	s.Run(func() { Program(w, inc.RT) })
 	return inc
